@@ -9,7 +9,7 @@ Ltac Zify.zify_post_hook ::= Z.to_euclidean_division_equations.
    exception class; the numbering is fixed in harness/errs.py. *)
 Inductive err : Set :=
 | ValueError | TypeError | KeyError | IndexError | OverflowError
-| NotImplementedErr | RecursionErr | AttributeErr | OutOfFuel
+| NotImplementedErr | RecursionErr | AttributeErr | OutOfFuel | UnicodeErr
 | Pyctr (n : Z).
 
 Inductive result (A : Type) : Type :=
